@@ -8,7 +8,9 @@ MANIFEST = dict(
     text="Lean 4 theorems over executable models of http_response_write_prepare (framing decision), "
          "h1_send_headers (keep-alive/Connection, serialisation), the response header store, the http_chunk.c "
          "encoder, buffer_append_string_encoded (extracted encoded_chars_* tables) and the socket writer "
-         "(network_write.c + chunkqueue_mark_written) under arbitrary write-result schedules. PROVED over the model, "
+         "(network_write.c + chunkqueue_mark_written) under arbitrary write-result schedules, and of the end of a "
+         "response on the connection (connections.c: connection_handle_response_end_state, connection_handle_shutdown / "
+         "connection_close, re-entry of connection_state_machine_loop for the next pipelined request). PROVED over the model, "
          "for every well-behaved response descriptor: a client written from RFC 9112 (wireDecode: reads the "
          "header-section BYTES, every field line, sections 6.3/7.1, independent chunked decoder) recovers status "
          "and exactly the intended body and is left with exactly the next response's bytes, or the message is "
@@ -20,9 +22,18 @@ MANIFEST = dict(
          "EVERY schedule, retryable results (EINTR/EAGAIN/short) never abort, a cooperative socket drains the "
          "queue (progress), composed with the response message (c04_response_reaches_socket); URL/HTML encoders "
          "emit no CR/LF/NUL, directory-redirect Location and decoded paths are clean; the header section splits "
-         "into exactly its CR-terminated lines, also with repeated fields. TESTED ONLY (correspondence / "
+         "into exactly its CR-terminated lines, also with repeated fields; the connection goes on to the next request "
+         "exactly after an HTTP/1.x exchange with keep-alive on, request body read and no write error, and is otherwise "
+         "shut down (FIN) or closed, for every state (c04_response_end_really_closes); for EVERY pipeline the bytes on "
+         "the connection are the responses of a prefix of the requests, once each, in request order, all but the last "
+         "complete, nothing behind the first response that ends the connection (c04_once_per_request_in_order); a "
+         "response with neither length nor chunking is the last thing on the wire and the connection is shut down or "
+         "closed behind it (c04_undelimited_really_closes) - these three over an ABSTRACT pipeline: which request yields "
+         "which response descriptor (READ / HANDLE_REQUEST states) is not modelled. TESTED ONLY (correspondence / "
          "end-to-end, not proved): that the C equals the models (in-process harness with scripted "
-         "write/writev/sendfile faults, exhaustive decision table, fault-injected short reads); responses once "
+         "write/writev/sendfile faults, exhaustive decision table, fault-injected short reads; h_h1conn: the real "
+         "connection_handle_response_end_state on real sockets, end-of-stream observed by the peer, every input "
+         "combination exhaustively, pipelines <= 3 exhaustively); on the real server: responses once "
          "per request and in request order, the connection really being closed, streaming modes, client read "
          "pace, static files of every boundary size x backend, error handlers, CGI producers with declared "
          "Content-Length and dribbling write schedules, and an LD_PRELOAD shim making the real server's socket "
@@ -31,7 +42,9 @@ MANIFEST = dict(
     note="claimed partial. trusted: Lean kernel (+propext, Quot.sound, Classical.choice; decide +kernel on tables), "
          "hand-written models as far as the h_h1resp correspondence and the end-to-end stream reach, "
          "tables/constants regenerated from buffer.c/http_kv.c/network_write.c/chunk.h each run. Outside the "
-         "proofs: order/count of responses and connection close (connection state machine: end-to-end only); "
+         "proofs: the READ / HANDLE_REQUEST part of the connection state machine (the pipeline theorem takes the "
+         "per-request response and keep-alive flag as given; that the real server feeds it request by request is "
+         "end-to-end only), the lingering close (C13), r->keep_alive < 0; "
          "stream-response-body and read pace are not model parameters; which module-generated header values "
          "are request-derived beyond the directory redirect (mod_redirect/rewrite: C20; others not "
          "enumerated); Range rewriting (C15), backend pass-through of chunking/trailers and truncated backend "
@@ -45,9 +58,11 @@ MANIFEST = dict(
 LEVEL = "proof"
 EXPLANATION = ("claimed partial: clauses proved over the model = message well-formed and self-delimiting at byte level, "
                "declared length true, chunked framing, no body for HEAD/204/205/304 and 1xx, no-length => keep-alive flag "
-               "cleared, partial/interrupted writes exact + progress, no CR/LF from the URL encoders / directory redirect; "
-               "clauses covered by correspondence or end-to-end only = model equals C, once per request in request order, "
-               "connection actually closed, static-file body for every size/backend/streaming mode/read pace, error "
+               "cleared, partial/interrupted writes exact + progress, no CR/LF from the URL encoders / directory redirect, "
+               "connection continues only after a complete keep-alive exchange and is otherwise shut down/closed, responses "
+               "once per request in request order over an abstract pipeline; "
+               "clauses covered by correspondence or end-to-end only = model equals C, request parsing/dispatch feeding the "
+               "pipeline on the real server, static-file body for every size/backend/streaming mode/read pace, error "
                "handlers, backend producers; outside = other request-derived header sinks, C10/C15 territory, TLS, kernel")
 
 DATE_T = 784111777
@@ -1657,8 +1672,159 @@ def run_e2e(ctx, only=None):
     ctx.sample({"stream": "e2e", "variant": results[0][0] if results else "", "responses_checked": nresp})
 
 
+# ------------------------------------------------------------------ conn: the end of a response on the connection
+CONN_OPS = ("rend", "pipe")
+CONN_PEER = {0: True, 1: False, 2: True, 3: False}
+
+
+def parse_end(out):
+    """'<st> ka=.. done=.. sep=.. fin=.. closed=.. pend=.. eof=..' -> dict"""
+    t = out.split(" ")
+    d = {"st": t[0]}
+    for kv in t[1:]:
+        k, _, v = kv.partition("=")
+        d[k] = int(v)
+    return d
+
+
+def oracle_end(d, peer, pending, may_continue, what):
+    """the property on what connection_handle_response_end_state() left behind (independent of the model)"""
+    if d["st"] == "rs":
+        if not may_continue:
+            return "connection goes on to the next request although %s" % what
+        if d["fin"] or d["closed"] or d["eof"]:
+            return "connection kept for the next request but shut down / closed (fin=%d closed=%d eof=%d)" % (
+                d["fin"], d["closed"], d["eof"])
+        if d["pend"] != pending:
+            return "pipelined request bytes lost on keep-alive (%d of %d left)" % (d["pend"], pending)
+        return None
+    if d["st"] not in ("cl", "co"):
+        return "unexpected connection state %s after the response" % d["st"]
+    if d["fin"] != 1 and d["closed"] != 1:
+        return "connection neither shut down nor closed after the last response (fin=%d closed=%d)" % (d["fin"], d["closed"])
+    if peer and d["eof"] != 1:
+        return "client does not see end-of-stream after a response that ends the connection"
+    if d["st"] == "co" and d["pend"] != 0:
+        return "closed connection still holds %d request bytes" % d["pend"]
+    return None
+
+
+def oracle_conn(line, out):
+    t = line.split(" ")
+    if out == "bad-op":
+        return None
+    try:
+        if t[0] == "rend":
+            h2, status, rl, ri, err, ka, sep, mode, pending = (int(x) for x in t[1:10])
+            d = parse_end(out)
+            why = []
+            if h2: why.append("the request is not HTTP/1.x")
+            if rl != ri: why.append("the request body was not read completely (%d of %d)" % (ri, rl))
+            if err: why.append("the write state ended in error")
+            if ka <= 0: why.append("keep-alive is off (%d)" % ka)
+            return oracle_end(d, CONN_PEER[mode], pending, not why, "; ".join(why))
+        if t[0] == "pipe":
+            mode = int(t[1])
+            wire = b""
+            n = 0
+            stop = None
+            for i, tok in enumerate(t[2:]):
+                ln, ka, wrote, rl, ri, status = (int(x) for x in tok.split(","))
+                wire += pat(i, ln if wrote < 0 else min(ln, wrote))
+                n += 1
+                why = []
+                if wrote >= 0: why.append("response %d ended in a write error" % i)
+                if not ka: why.append("response %d has keep-alive off" % i)
+                if rl != ri: why.append("request body %d not read completely" % i)
+                if why:
+                    stop = "; ".join(why)
+                    break
+            u = out.split(" ", 2)
+            got_n = int(u[0][2:])
+            got_len, got_ad = u[1][5:].split(":")
+            if got_n != n:
+                return "%d responses for a pipeline in which exactly %d requests are to be answered (%s)" % (
+                    got_n, n, stop or "all keep-alive")
+            if int(got_len) != len(wire) or got_ad != adler(wire):
+                return "bytes on the connection are not the responses once each in request order (%s bytes, expected %d)" % (
+                    got_len, len(wire))
+            if u[2] == "open":
+                return None if stop is None else "connection stays open although " + stop
+            return oracle_end(parse_end(u[2]), True, len(t) - 2 - n, stop is None, stop or "")
+    except (ValueError, IndexError, KeyError):
+        return "unparsable harness output: " + out[:200]
+    return None
+
+
+def classify_conn(line, out):
+    t = line.split(" ")
+    if out == "bad-op":
+        return "conn:bad-op"
+    if t[0] == "rend":
+        return "conn:rend:h2=%s:m%s:%s" % (t[1], t[8], " ".join(x for x in out.split(" ") if not x.startswith("pend=")))
+    st = out.split(" ")[2] if len(out.split(" ")) > 2 else "?"
+    return "conn:pipe:m%s:n%s/%d:%s" % (t[1], out.split(" ")[0][2:], len(t) - 2, st)
+
+
+def gen_conn(ctx):
+    rng = ctx.rng
+    lines = []
+    # exhaustive small scope: every combination of the inputs response_end looks at
+    bodies = [(0, 0), (10, 10), (10, 4), (-1, 5), (-1, -1)]
+    for h2, status, (rl, ri), err, ka, sep, mode, pend in itertools.product(
+            (0, 1), (0, 200), bodies, (0, 1), (-1, 0, 1, 2), (0, 1), (0, 1, 2, 3), (0, 3)):
+        lines.append("rend %d %d %d %d %d %d %d %d %d" % (h2, status, rl, ri, err, ka, sep, mode, pend))
+        ctx.dist["conn:rend:exhaustive"] += 1
+    # random, wide value ranges
+    for _ in range(1500 if ctx.quick else 15000):
+        rl = rng.choice([0, 0, rng.randrange(1, 1 << 20), -1, rng.randrange(1 << 40, 1 << 62), -rng.randrange(2, 100)])
+        ri = rl if rng.random() < 0.6 else rng.choice([0, max(rl - 1, 0), rl + 1, rng.randrange(0, 1 << 20)])
+        ka = rng.choice([1, 1, 1, 0, -1, 2, rng.randrange(-128, 128)])
+        lines.append("rend %d %d %d %d %d %d %d %d %d" % (
+            rng.random() < 0.1, rng.choice([0, 100, 200, 204, 304, 404, 500, 599]), rl, ri, rng.random() < 0.15, ka,
+            rng.random() < 0.2, rng.choice([0, 0, 1, 2, 3]), rng.choice([0, 1, 17, 4096, rng.randrange(0, 60000)])))
+        ctx.dist["conn:rend:random"] += 1
+    # malformed: wrong arity, unknown descriptor mode
+    for bad in ("rend", "rend 0 200 0 0 0 1 0 0", "rend 0 200 0 0 0 1 0 4 0", "rend 0 200 0 0 0 1 0 9 1 1", "pipe 0", "pipe 1 5,1,-1,0,0,200",
+                "pipe 7 5,1,-1,0,0,200"):
+        lines.append(bad)
+        ctx.dist["conn:malformed"] += 1
+    # pipelines: every sequence of <= 3 requests over a 6-letter alphabet, both descriptor modes
+    alpha = ["7,1,-1,0,0,200", "7,0,-1,0,0,200", "7,1,-1,9,4,200", "7,1,3,0,0,200", "7,1,0,0,0,200", "0,1,-1,0,0,0"]
+    for n in (1, 2, 3):
+        for seq in itertools.product(alpha, repeat=n):
+            for mode in (0, 2):
+                lines.append("pipe %d %s" % (mode, " ".join(seq)))
+                ctx.dist["conn:pipe:exhaustive<=3"] += 1
+    sizes = [0, 1, 2, 4095, 4096, 4097, 16384, 65535, 65536, 65537, 131072, 200000]
+    for _ in range(600 if ctx.quick else 6000):
+        n = rng.randrange(1, 9)
+        toks = []
+        for i in range(n):
+            ln = rng.choice(sizes) if rng.random() < 0.3 else rng.randrange(0, 3000)
+            r = rng.random()
+            last = (i == n - 1)
+            p_stop = 0.5 if last else 0.12
+            ka, wrote, rl, ri = 1, -1, 0, 0
+            if r < p_stop:
+                kind = rng.choice(["close", "err", "unread"])
+                if kind == "close": ka = 0
+                elif kind == "err": wrote = rng.choice([0, ln // 2, max(ln - 1, 0), ln, ln + 5])
+                else: rl = rng.randrange(1, 1 << 20); ri = rng.randrange(0, rl)
+                ctx.dist["conn:pipe:req:" + kind] += 1
+            else:
+                if rng.random() < 0.3: rl = ri = rng.randrange(1, 1 << 20)
+                ctx.dist["conn:pipe:req:keep-alive"] += 1
+            toks.append("%d,%d,%d,%d,%d,%d" % (ln, ka, wrote, rl, ri, rng.choice([200, 200, 404, 304, 0])))
+        lines.append("pipe %d %s" % (rng.choice([0, 0, 2]), " ".join(toks)))
+        ctx.dist["conn:pipe:random:len%d" % n] += 1
+    return lines
+
+
 def oracle(line, out):
     t = line.split(" ")
+    if t[0] in CONN_OPS:
+        return oracle_conn(line, out)
     if t[0] == "nw":
         return oracle_nw(t, out)
     if t[0] == "prep":
@@ -1668,6 +1834,8 @@ def oracle(line, out):
 
 def classify(line, out):
     t = line.split(" ")
+    if t[0] in CONN_OPS:
+        return classify_conn(line, out)
     if t[0] == "nw":
         return classify_nw(t, out)
     if t[0] == "prep":
@@ -1686,12 +1854,19 @@ def run(ctx):
     ctx.faults_fired += sum(int(m.group(1)) for o in impl_ff for m in [re.search(r" ff=(\d+)", o)] if m)
     ctx.differential("framing-table(h_h1resp prep)", [exe], "h1resp", gen_prep(ctx), oracle, classify)
     ctx.differential("encoders(h_h1resp enc/redir/clen)", [exe], "h1resp", gen_enc(ctx), oracle, classify)
+    exe_c, err = C.build_harness("h_h1conn")
+    if exe_c is None:
+        ctx.broken.append({"kind": "harness-build", "names": ["h_h1conn"], "log": err[-3000:]})
+        return
+    ctx.differential("connection-end(h_h1conn rend/pipe)", [exe_c], "h1resp", gen_conn(ctx), oracle, classify)
     run_e2e(ctx)
     ctx.exhaustive = False
     ctx.notes.append("exhaustive sub-scopes: all write-result schedules of length <= %d over an 11-symbol alphabet on a "
                      "3-chunk message (both backends, two max_bytes); every short-write position x {EAGAIN, EINTR, 0} of four "
                      "fixed messages; the full framing table status(14) x method(4) x version x finished x keep-alive x "
-                     "flag sets(8) x header sets x bodies; every byte value under each of the 4 encoding tables"
+                     "flag sets(8) x header sets x bodies; every byte value under each of the 4 encoding tables; every "
+                     "input combination of connection_handle_response_end_state (2560) and every pipeline of <= 3 requests "
+                     "over 6 request kinds x 2 descriptor modes (516)"
                      % (3 if ctx.quick else 4))
     ctx.assumptions += ["handler-declared Transfer-Encoding / Upgrade, bare 1xx final statuses, successful CONNECT and "
                         "handler-declared Content-Length that disagrees with the handler's own body are outside the "
@@ -1702,7 +1877,9 @@ def run(ctx):
     ctx.rule = ("write path: random chunk layouts x fault schedules, every short-write position of fixed "
                 "messages, all schedules <= 3 over an 11-symbol alphabet; framing: full decision table "
                 "status x method x version x finished x keep-alive x flags x header sets x bodies; "
-                "encoders: every byte under every table; distinct = (stream, class, outcome) tuples")
+                "encoders: every byte under every table; connection end: every combination of version x status x "
+                "body accounting x error x keep-alive x 1xx queue x descriptor mode x pipelined bytes, all pipelines "
+                "<= 3 over 6 request kinds, random pipelines <= 8; distinct = (stream, class, outcome) tuples")
 
 
 def replay(ctx, path):
@@ -1726,7 +1903,7 @@ def replay(ctx, path):
 
 def replay_line(ctx, rep):
     line = rep["input"]
-    exe, err = C.build_harness("h_h1resp")
+    exe, err = C.build_harness("h_h1conn" if line.split(" ")[0] in CONN_OPS else "h_h1resp")
     o, rc, e = C.run_lines([exe], [line])
     m, _, _ = C.run_model("h1resp", [line])
     print("input:", line[:2000])
